@@ -571,6 +571,54 @@ func configStream(r *runner, rng *rand.Rand) error {
 			return nil
 		}
 	}
+	// fixed: malformed documents the loader must refuse (what the struct tags `validate:"required"` promise)
+	malformed := []struct{ kind, text string }{
+		{"entry-without-arguments-key", "seccomp:\n  default_action: allow\n  syscalls:\n  - action: errno\n    names_with_args:\n    - name: getppid\n"},
+		{"entry-with-empty-arguments", "seccomp:\n  default_action: allow\n  syscalls:\n  - action: errno\n    names_with_args:\n    - name: getppid\n      arguments: []\n"},
+		{"entry-without-name", "seccomp:\n  default_action: allow\n  syscalls:\n  - action: errno\n    names_with_args:\n    - arguments:\n      - argument: 0\n        operation: Equal\n        value: 1\n"},
+		{"condition-without-operation", "seccomp:\n  default_action: allow\n  syscalls:\n  - action: errno\n    names_with_args:\n    - name: getppid\n      arguments:\n      - argument: 0\n        value: 1\n"},
+		{"group-without-action", "seccomp:\n  default_action: allow\n  syscalls:\n  - names:\n    - getppid\n"},
+		{"no-syscalls", "seccomp:\n  default_action: allow\n"},
+		{"json-entry-without-arguments-key", `{"seccomp":{"default_action":"allow","syscalls":[{"action":"errno","names_with_args":[{"name":"getppid"}]}]}}`},
+	}
+	for _, m := range malformed {
+		req := "CFGBAD " + m.kind
+		r.count(req, true)
+		r.tag("malformed:" + m.kind)
+		var back *seccomp.Policy
+		var rerr error
+		func() {
+			defer func() {
+				if x := recover(); x != nil {
+					rerr = fmt.Errorf("PANIC %v", x)
+				}
+			}()
+			if err := os.WriteFile(cfgFile(), []byte(m.text), 0o600); err != nil {
+				rerr = err
+				return
+			}
+			defer os.Remove(cfgFile())
+			back, rerr = parsePolicyFile(cfgFile())
+			if rerr == nil && back != nil {
+				// what cmd/sandbox does next: the policy is handed to LoadFilter, which validates and assembles
+				if _, aerr := back.Assemble(); aerr != nil {
+					rerr = aerr
+				}
+			}
+		}()
+		if rerr == nil {
+			if r.mismatch(Mismatch{Case: m.kind, Request: req, Go: "read and assembled without error", Model: "must be refused",
+				FailingInput: "the configuration path accepts a malformed policy document (" + m.kind + ") and compiles it:\n" + m.text,
+				Key:          "config:malformed:" + m.kind}) {
+				return nil
+			}
+		} else if strings.HasPrefix(rerr.Error(), "PANIC") {
+			if r.mismatch(Mismatch{Case: m.kind, Request: req, Go: rerr.Error(), Model: "must be refused with an error",
+				FailingInput: "the configuration path panics on a malformed policy document (" + m.kind + "):\n" + m.text}) {
+				return nil
+			}
+		}
+	}
 	profiles := []string{"conds", "conds", "mix", "names", "single"}
 	for i := 0; i < *n; i++ {
 		p := vd.GenValid(rng, profiles[rng.Intn(len(profiles))])
